@@ -24,6 +24,7 @@ func (dv *defaultVerifierPipeline) verify(ctx context.Context, roots <-chan *Nod
 
 	go func() {
 		defer func() {
+			verifPoint("sink.close", 0, "")
 			close(errc)
 		}()
 
@@ -40,22 +41,33 @@ func (dv *defaultVerifierPipeline) verify(ctx context.Context, roots <-chan *Nod
 
 func (dv *defaultVerifierPipeline) worker(ctx context.Context, wg *sync.WaitGroup, roots <-chan *Node, errc chan<- error) {
 	defer wg.Done()
+	vid := verifStart("sink")
+	defer verifPoint("sink.exit", vid, "")
 	for {
+		verifPoint("sink.recv.pre", vid, "")
 		select {
 		case <-ctx.Done():
+			verifPoint("sink.recv.ctx", vid, "")
 			return
 		case root, ok := <-roots:
 			if !ok {
+				verifPoint("sink.recv.closed", vid, "")
 				return
 			}
+			verifPoint("sink.recv.post", vid, verifName(root))
 			extra, noExists, err := dv.verifyRoot(root)
 			if err != nil {
+				verifPoint("sink.errsend.pre", vid, verifName(root))
 				errc <- err
+				verifPoint("sink.errsend.post", vid, verifName(root))
 			}
 			// TODO: 1Root分のエラーしか出力しないようになってるから、全Root分の検査結果を出力する方がいいかも
 			if err := dv.handleErr(extra, noExists); err != nil {
+				verifPoint("sink.errsend.pre", vid, verifName(root))
 				errc <- err
+				verifPoint("sink.errsend.post", vid, verifName(root))
 			}
+			verifPoint("sink.done", vid, verifName(root))
 		}
 	}
 }
